@@ -477,7 +477,7 @@ func writeEvidence(verifDir, prop, tier string, seed int, eng *Engine, pc *PropC
 			"explanation":      "states = feasible symbolic paths explored (each covers all concrete inputs satisfying its path condition); transitions = go/ssa instructions executed symbolically; every assertion on every path was discharged by an SMT query (unsat) within the stated bounds",
 			"functions_encoded": fl, "models_used": ml, "harnesses": harnessInfo,
 			"bounds": pc.Bounds, "outside_claim": pc.Outside,
-			"queries": map[string]interface{}{"total": atomic.LoadInt64(&stats.Queries), "sat": atomic.LoadInt64(&stats.Sat), "unsat": atomic.LoadInt64(&stats.Unsat), "unknown": atomic.LoadInt64(&stats.Unknown), "assertion_queries_unsat": asserts, "solver_errors": atomic.LoadInt64(&stats.Errors)},
+			"queries": map[string]interface{}{"total": atomic.LoadInt64(&stats.Queries), "sat": atomic.LoadInt64(&stats.Sat), "unsat": atomic.LoadInt64(&stats.Unsat), "unknown": atomic.LoadInt64(&stats.Unknown), "assertion_queries_unsat": asserts, "solver_errors": atomic.LoadInt64(&stats.Errors), "crosschecked_both_families": atomic.LoadInt64(&stats.CrossBoth), "crosscheck_second_family_no_answer": atomic.LoadInt64(&stats.CrossOne)},
 			"solver_time": st, "inconclusive": inconcl, "known_findings_hit": knownHits,
 			"translator_validation": map[string]interface{}{"observations_identical_native_vs_engine": tvTotal, "programs": tvNames(), "what": "rt/verifrt/tv.go programs (integer/slice/map/defer semantics, bytes.Buffer, time, UTF-8 iteration, text encoders, fmt, errors.Is/As, net errors, field arithmetic incl. SqrtRatio, net.IP) run natively and by the engine with concrete values; observation lists compared"},
 			"native_replays_confirmed": nativeConfirmed,
